@@ -625,6 +625,7 @@ def main():
         if not args.no_rust:
             import translate_rust
             translate_rust.emit_rust(schema, args.out)
+            translate_rust.emit_featdrv(schema, args.out)
     except TranslateError as e:
         print(f"TRANSLATE-ERROR: {e}")
         sys.exit(3)
